@@ -214,12 +214,17 @@ pub fn clip_verts(s: &Scene) -> Vec<[f32; 4]> {
 /// The w×h region at (1,1) of a (w+3)×(h+2) buffer, and whether every cell outside it still holds `fill`
 /// (bitwise, so NaN fills compare equal to themselves).
 fn inner_region<T: Copy + ToBits>(b: &Buf2<T>, w: u32, h: u32, fill: T) -> (Vec<T>, bool) {
+    inner_region_at(b, w, h, fill, 1, 1)
+}
+
+/// The `w`×`h` window at (`ox`, `oy`) of a larger buffer, and whether every cell outside it still holds `fill`.
+fn inner_region_at<T: Copy + ToBits>(b: &Buf2<T>, w: u32, h: u32, fill: T, ox: u32, oy: u32) -> (Vec<T>, bool) {
     let mut inner = vec![];
     let mut ok = true;
-    for y in 0..h + 2 {
-        for x in 0..w + 3 {
+    for y in 0..b.height() {
+        for x in 0..b.width() {
             let v = b[[x, y]];
-            if x >= 1 && x <= w && y >= 1 && y <= h {
+            if x >= ox && x < ox + w && y >= oy && y < oy + h {
                 inner.push(v);
             } else if v.bits() != fill.bits() {
                 ok = false;
@@ -253,7 +258,9 @@ pub fn run_scene(s: &Scene, door: char) -> Output {
         let mut c = Buf2::new((s.w + 3, s.h + 2));
         c.fill(SENTINEL_COLOR);
         if s.tgt_fb {
-            let mut d = Buf2::new((s.w + 3, s.h + 2));
+            // the depth buffer's backing store has ANOTHER width and offset than the colour buffer's:
+            // the two views have equal dimensions but different strides
+            let mut d = Buf2::new((s.w + 6, s.h + 3));
             d.fill(s.zinit);
             Tgt::FbS(c, d)
         } else {
@@ -360,7 +367,8 @@ pub fn run_scene(s: &Scene, door: char) -> Output {
                     Tgt::Cb(cb) => with_target!(cb),
                     Tgt::FbS(c, d) => {
                         let rect = (1..s.w + 1, 1..s.h + 1);
-                        let mut fb = Framebuf { color_buf: c.slice_mut(rect.clone()), depth_buf: d.slice_mut(rect) };
+                        let drect = (4..s.w + 4, 2..s.h + 2);
+                        let mut fb = Framebuf { color_buf: c.slice_mut(rect), depth_buf: d.slice_mut(drect) };
                         with_target!(&mut fb)
                     }
                     Tgt::CbS(c) => {
@@ -430,7 +438,7 @@ pub fn run_scene(s: &Scene, door: char) -> Output {
         Tgt::Cb(cb) => Output { stats: total, color: cb.data().to_vec(), depth: None },
         Tgt::FbS(c, d) => {
             let (color, ok1) = inner_region(&c, s.w, s.h, SENTINEL_COLOR);
-            let (depth, ok2) = inner_region(&d, s.w, s.h, s.zinit);
+            let (depth, ok2) = inner_region_at(&d, s.w, s.h, s.zinit, 4, 2);
             assert!(ok1 && ok2, "a cell of the backing buffer outside the target view was modified");
             Output { stats: total, color, depth: Some(depth) }
         }
